@@ -26,6 +26,26 @@ CHECKS = {
          "build/build_lossy are run on every logger name over {a,b,:} up to length 6 and on generated builder inputs with duplicates, ill-formed names and dangling references; acceptance, the named errors (required subset, no innocent item), the lossy result (accessor view) and the routing of every returned Config (installed in a private Logger, probed under a panic trap) are compared with a reference model written from the statement.",
          "Trusted: reference model in c13.rs. Names with colon runs of even length >= 4 and dangling references inside rejected loggers are don't-care.",
          "DESIGN.md §4 C13"),
+ "C09": ("exploration",
+         "runtime monitor: AST-generated well-formed patterns rendered by an independent reference evaluator, compared with the captured bytes and style calls of the real encoder",
+         "Patterns are generated from an AST (all formatters, both aliases, escapes in text and arguments, nesting, specs, dates, MDC), printed with random alias/escape choices and encoded for random records through a capturing encode::Write; text and style events must equal the reference renderer's output (default-format dates are parsed back and bracketed by the call). The grammar is recursive and unbounded, so sampled exploration with an exact oracle is the achievable level.",
+         "Trusted: pattern_model.rs (printer + renderer), chrono's strftime for expected date text. Two grammar ambiguities are never generated (`))` inside an argument, empty `{x:}` spec before '<'/'>'). Dev profile by default; thorough repeats in release for {R(..)}.",
+         "DESIGN.md §4 C09"),
+ "C10": ("exploration",
+         "runtime monitor: reference pad(cut(text,M),m) law over generated specs/texts, each case encoded under four chunkings incl. short-write sinks that split code points",
+         "Every generated (spec nest, text) case is encoded four times - whole writes, two random short-write sinks, message Display in pieces - and each output must be valid UTF-8, contain at most M scalars where maxima apply, and equal the reference law counted in Unicode scalar values.",
+         "Trusted: pattern_model.rs. Widths from {0,1,2,3,5,8,13,40}; fills incl. multi-byte and syntax characters; nesting depth <= 3.",
+         "DESIGN.md §4 C10"),
+ "C11": ("exploration",
+         "runtime monitor: panic trap around PatternEncoder::new and encode over exhaustive syntax-alphabet strings, edits of valid patterns and a malformed-tail catalogue with an {ERROR} oracle",
+         "Exhaustive over two 12-symbol alphabets up to length 6/5 (quick) or 7/6 (thorough), plus single edits of generated valid patterns, random Unicode strings, and well-formed-prefix + malformed-tail compositions whose output must start with the prefix's reference rendering and then show {ERROR: or return Err. No panic is tolerated anywhere.",
+         "Trusted: panic hook capture; reference renderer for the prefix. encode() skipped only for representable explicit widths in (10^6, 2^64). Dev profile by default (overflow checks on); thorough repeats in release.",
+         "DESIGN.md §4 C11"),
+ "C12": ("exploration",
+         "runtime monitor: own RFC 8259 parser (serde_json as second opinion) over the captured line of hostile generated records, field-by-field round-trip oracle",
+         "Each generated record (hostile strings in every text field and MDC, long unescaped runs across buffer sizes, optional fields absent, named/unnamed threads, short-write sinks) is encoded and the single line is parsed back with an independent parser and compared field by field, including omission of absent optional fields and the MDC map.",
+         "Trusted: the harness JSON parser, chrono RFC 3339 parsing for the time bracket. 'Control character' = U+0000..U+001F.",
+         "DESIGN.md §4 C12"),
 }
 
 NOT_YET = {}
